@@ -155,7 +155,8 @@ func (c Int16) Log1pExp(a ConstScalar) Scalar {
   if v <= 33.3 {
     c.Neg(a)
     c.Exp(a)
-    c.Add(c, a)
+    // the receiver may be the argument, which is overwritten by now
+    c.Add(c, ConstFloat64(v))
   } else {
     c.Set(a)
   }
